@@ -477,37 +477,74 @@ theorem C06_ctx_split (s : String) :
     | [_] => exact ⟨_, rfl⟩
     | _ :: _ :: _ => rw [hl] at h; simp at h
 
-/-- **C06_ctx_error**: what makes the contextual part raise, per (context, anchor key): ValueError exactly for a context with two
-    or more ';'; otherwise KeyError exactly when the key has no mark class (`self.context.markClasses[anchorKey]`) -/
+/-- **C06_ctx_error**: what makes the contextual part raise, per (context, anchor key): ValueError, exactly for a key that has a
+    mark class together with a context with two or more ';' — nothing else (a key without mark class is skipped before the
+    context is even looked at: C06_ctx_skip) -/
 theorem C06_ctx_error (km : List (String × String)) (feat pre : String) (kind : Kind) (c k : String) (names : List String)
     (entries : List Entry) (st : CtxFeature) :
-    (ctxStep km feat pre kind c k names entries st = .error .valueError ↔ 2 ≤ (c.toList.filter (· == ';')).length) ∧
-    (ctxStep km feat pre kind c k names entries st = .error .keyErrorMarkClass ↔
-      (c.toList.filter (· == ';')).length ≤ 1 ∧ (k = "" ∨ alookup k km = none)) ∧
-    (∀ e, ctxStep km feat pre kind c k names entries st = .error e → e = .valueError ∨ e = .keyErrorMarkClass) := by
+    (ctxStep km feat pre kind c k names entries st = .error .valueError ↔
+      (ctxClass km k).isSome = true ∧ 2 ≤ (c.toList.filter (· == ';')).length) ∧
+    (∀ e, ctxStep km feat pre kind c k names entries st = .error e → e = .valueError) := by
   obtain ⟨s1, s2⟩ := C06_ctx_split c
-  by_cases h2 : 2 ≤ (c.toList.filter (· == ';')).length
-  · have hs := s1 h2
-    have : ctxStep km feat pre kind c k names entries st = .error .valueError := by simp [ctxStep, hs]
-    refine ⟨⟨fun _ => h2, fun _ => this⟩, ⟨fun h => by rw [this] at h; simp at h, fun h => by omega⟩, ?_⟩
-    intro e he; rw [this] at he; simp at he; exact Or.inl he.symm
-  · obtain ⟨p, hp⟩ := s2 (by omega)
-    by_cases hk : k = ""
-    · have : ctxStep km feat pre kind c k names entries st = .error .keyErrorMarkClass := by simp [ctxStep, hp, hk]
-      refine ⟨⟨fun h => by rw [this] at h; simp at h, fun h => absurd h h2⟩, ⟨fun _ => ⟨by omega, Or.inl hk⟩, fun _ => this⟩, ?_⟩
-      intro e he; rw [this] at he; simp at he; exact Or.inr he.symm
-    · have hkb : (k == "") = false := by simpa using hk
-      cases hl : alookup k km with
-      | none =>
-        have : ctxStep km feat pre kind c k names entries st = .error .keyErrorMarkClass := by simp [ctxStep, hp, hkb, hl]
-        refine ⟨⟨fun h => by rw [this] at h; simp at h, fun h => absurd h h2⟩, ⟨fun _ => ⟨by omega, Or.inr rfl⟩, fun _ => this⟩, ?_⟩
-        intro e he; rw [this] at he; simp at he; exact Or.inr he.symm
-      | some cls =>
-        have : ∃ r, ctxStep km feat pre kind c k names entries st = .ok r := by simp [ctxStep, hp, hkb, hl]
-        obtain ⟨r, hr⟩ := this
-        refine ⟨⟨fun h => by rw [hr] at h; simp at h, fun h => absurd h h2⟩,
-          ⟨fun h => by rw [hr] at h; simp at h, fun h => by rcases h.2 with h | h; exact absurd h hk; simp at h⟩, ?_⟩
-        intro e he; rw [hr] at he; simp at he
+  cases hc : ctxClass km k with
+  | none =>
+    have : ctxStep km feat pre kind c k names entries st = .ok st := by simp [ctxStep, hc]
+    exact ⟨⟨fun h => by rw [this] at h; simp at h, fun h => by simp at h⟩, fun e he => by rw [this] at he; simp at he⟩
+  | some cls =>
+    by_cases h2 : 2 ≤ (c.toList.filter (· == ';')).length
+    · have : ctxStep km feat pre kind c k names entries st = .error .valueError := by simp [ctxStep, hc, s1 h2]
+      exact ⟨⟨fun _ => ⟨rfl, h2⟩, fun _ => this⟩, fun e he => by rw [this] at he; simp at he; exact he.symm⟩
+    · obtain ⟨p, hp⟩ := s2 (by omega)
+      have : ∃ r, ctxStep km feat pre kind c k names entries st = .ok r := by simp [ctxStep, hc, hp]
+      obtain ⟨r, hr⟩ := this
+      exact ⟨⟨fun h => by rw [hr] at h; simp at h, fun h => absurd h.2 h2⟩, fun e he => by rw [hr] at he; simp at he⟩
+
+/-- **C06_ctx_skip**: an anchor key to which no mark glyph attaches (no entry in `markClasses`) contributes nothing: the loop body
+    returns the state as it found it — no referenced lookup, no dispatch block or line, the counters that name the following
+    lookups (`len(refLkps)`, `len(ctxLkps)`) untouched — whatever the context string is (it is not even split); and running the
+    whole loop is the same as running it without those keys, so no other lookup changes its name or its content. -/
+theorem C06_ctx_skip (al : AList) (km : List (String × String)) (feat pre : String) (d : Dest)
+    (atts : List (String × String × NA)) :
+    (∀ kind c k names entries st, ctxClass km k = none → ctxStep km feat pre kind c k names entries st = .ok st) ∧
+    (∀ (work : List (String × String)) (acc : Except Err CtxFeature),
+      work.foldl (ctxWorkStep al km feat pre d atts) acc =
+        (work.filter (fun ck => (ctxClass km ck.2).isSome)).foldl (ctxWorkStep al km feat pre d atts) acc) := by
+  have h1 : ∀ kind c k names entries st, ctxClass km k = none → ctxStep km feat pre kind c k names entries st = .ok st := by
+    intro kind c k names entries st hk; simp [ctxStep, hk]
+  refine ⟨h1, ?_⟩
+  intro work
+  induction work with
+  | nil => intro acc; rfl
+  | cons ck work ih =>
+    intro acc
+    simp only [foldl_cons, filter_cons]
+    cases hc : ctxClass km ck.2 with
+    | some cls => simp only [Option.isSome_some, if_true, foldl_cons]; exact ih _
+    | none =>
+      simp only [Option.isSome_none, Bool.false_eq_true, if_false]
+      have : ctxWorkStep al km feat pre d atts acc ck = acc := by
+        cases acc with
+        | error e => rfl
+        | ok s => simp [ctxWorkStep, h1 _ _ _ _ _ _ hc]
+      rw [this]; exact ih acc
+
+/-- **C06_ctx_keyError_old_counterexample** (repaired defect, kept as a labelled counterexample over the OLD loop body
+    `ctxStepOld`): before the repair a contextual anchor key without mark class made the writer raise KeyError
+    (`self.context.markClasses[anchorKey]`); the current body skips it, and agrees with the old one on every key that has a class. -/
+theorem C06_ctx_keyError_old_counterexample :
+    ctxStepOld [] "mark" "ContextualMark" .base "* b" "top" ["a"] [] ⟨[], []⟩ = .error .keyErrorMarkClass ∧
+    ctxStep [] "mark" "ContextualMark" .base "* b" "top" ["a"] [] ⟨[], []⟩ = .ok ⟨[], []⟩ ∧
+    ∀ km feat pre kind c k names entries st, (ctxClass km k).isSome = true →
+      ctxStepOld km feat pre kind c k names entries st = ctxStep km feat pre kind c k names entries st := by
+  refine ⟨by rfl, by rfl, ?_⟩
+  intro km feat pre kind c k names entries st hk
+  cases hc : ctxClass km k with
+  | none => rw [hc] at hk; simp at hk
+  | some cls =>
+    unfold ctxStepOld
+    cases hs : splitCtx c with
+    | error e => simp [ctxStep, hc, hs]
+    | ok p => simp [hc]
 
 /-- the writer as a whole raises iff the anchor lists raise (malformed anchor name: C06_error) or the contextual part does -/
 theorem C06_modelX_error (i : Input) : (∃ e, modelX i = .error e) ↔
